@@ -143,9 +143,9 @@ Definition cg_of (x : cgobj) : cgem := snd (snd x).
 Definition cg_tobj (x : cgobj) : tobject := snd (fst (snd x)).
 Definition cgobj_ok (cv : Z) (x : cgobj) : Prop :=
   objhdr_wf (fst x) /\ u16_wf (fst (fst (snd x))) /\ tobject_wf (cg_tobj x) /\ cgem_wf (cg_of x) /\ cg_ver (cg_of x) = cv.
-(* the class version can be derived from the first object's byte count only if its TObject is not referenced *)
-Definition start_ok (cv mver : Z) (objs : list cgobj) : Prop :=
-  mver = cv \/ (mver = -1 /\ match objs with [] => True | x :: _ => is_referenced (to_bits (cg_tobj x)) = false end).
+(* the sticky flag is either still unknown or already the file's class version; the byte counts 96/98 (version 0, TObject
+   without / with pidf) and 88/90 (version 1) are pairwise distinct, so the first object determines it in every case *)
+Definition start_ok (cv mver : Z) (objs : list cgobj) : Prop := mver = cv \/ mver = -1.
 Definition ver_after (cv mver : Z) (objs : list cgobj) : Z := match objs with [] => mver | _ => cv end.
 
 Lemma cgem_body_length c : cgem_wf c -> zlen (cgem_body_enc c) = match cg_posy c with Some _ => 84 | None => 76 end.
@@ -155,7 +155,7 @@ Proof.
 Qed.
 
 Lemma cgem_obj_read_enc cv x mver rest : cgobj_ok cv x ->
-  (mver = cv \/ (mver = -1 /\ is_referenced (to_bits (cg_tobj x)) = false)) ->
+  (mver = cv \/ mver = -1) ->
   cgem_obj_read mver (cgem_obj_enc x ++ rest) = Some ((cv, cg_of x), rest).
 Proof.
   destruct x as [h [[ver o] c]]. unfold cgobj_ok, cg_of, cg_tobj. cbn [fst snd]. intros (Wh & Wv & Wo & Wc & Hcv) Hm.
@@ -167,10 +167,13 @@ Proof.
     destruct (is_referenced (to_bits o)); lia. }
   rewrite read_nbytes_enc by (unfold nbytes_wf, kByteCountMask; rewrite Lp; destruct (is_referenced (to_bits o)), (cg_posy c); lia).
   cbn [bind]. rewrite skip_be. cbn [bind].
-  assert (Hver : (if mver =? -1 then if zlen payload =? 96 then Some 0 else if zlen payload =? 88 then Some 1 else None else Some mver) = Some cv).
-  { unfold cg_ver in Hcv. destruct Hm as [-> | [-> R]].
+  assert (Hver : (if mver =? -1
+                  then if (zlen payload =? 96) || (zlen payload =? 98) then Some 0
+                       else if (zlen payload =? 88) || (zlen payload =? 90) then Some 1 else None
+                  else Some mver) = Some cv).
+  { unfold cg_ver in Hcv. destruct Hm as [-> | ->].
     - destruct (cv =? -1) eqn:E; [|reflexivity]. destruct (cg_posy c); lia.
-    - cbn [Z.eqb]. rewrite Lp, R. destruct (cg_posy c); subst cv; reflexivity. }
+    - cbn [Z.eqb]. rewrite Lp. destruct (is_referenced (to_bits o)), (cg_posy c); subst cv; reflexivity. }
   rewrite Hver. cbn [bind]. unfold skip_tobject. rewrite read_tobject_enc by assumption. cbn [bind].
   destruct Wc as (L1 & F1 & L2 & F2 & Fy & L3 & F3 & L4 & F4 & L5 & F5).
   unfold cgem_body_enc. rewrite <- !app_assoc.
@@ -194,7 +197,7 @@ Lemma cgem_objs_read_enc cv : forall (objs : list cgobj) mver rest, Forall (cgob
 Proof.
   induction objs as [|x objs IH]; intros mver rest W S; [reflexivity|].
   inversion W; subst. cbn [length map concat rep_state]. rewrite <- app_assoc.
-  rewrite (cgem_obj_read_enc cv); [|assumption|destruct S as [S|[S1 S2]]; [left; exact S|right; split; assumption]].
+  rewrite (cgem_obj_read_enc cv); [|assumption|exact S].
   cbn [bind]. rewrite IH; [|assumption|left; reflexivity]. cbn [bind].
   unfold ver_after. destruct objs; reflexivity.
 Qed.
@@ -224,11 +227,9 @@ Qed.
 Lemma start_ok_app cv mver (a b : list cgobj) : start_ok cv mver (a ++ b) ->
   start_ok cv mver a /\ start_ok cv (ver_after cv mver a) b.
 Proof.
-  unfold start_ok, ver_after. intros [S|[S1 S2]].
+  unfold start_ok, ver_after. intros [S|S].
   - split; [left; exact S|]. destruct a; [left; exact S|left; reflexivity].
-  - destruct a as [|x a]; cbn [app] in S2.
-    + split; [right; split; [exact S1|exact I]|right; split; assumption].
-    + split; [right; split; assumption|left; reflexivity].
+  - split; [right; exact S|]. destruct a; [right; exact S|left; reflexivity].
 Qed.
 
 Lemma cgem_entries_enc cv (evs : list cgev) : forall mver offsets,
@@ -443,7 +444,7 @@ Proof.
   exists o, c. split; assumption.
 Qed.
 Lemma c01_cgem_roundtrip_pf : forall (cv : Z) (evs : list (objhdr * colhdr * list (objhdr * (Z * tobject * cgem)))),
-  Forall (cgev_ok cv) evs -> start_ok cv (-1) (concat (map cgev_objs evs)) ->
+  Forall (cgev_ok cv) evs ->
   fold_right Z.add 0 (map (fun ev => zlen (cgev_objs ev)) evs) < 4294967296 ->
   let stored := map cgem_event_enc evs in
   let clusters := map (fun ev => map cg_of (cgev_objs ev)) evs in
@@ -452,7 +453,7 @@ Lemma c01_cgem_roundtrip_pf : forall (cv : Z) (evs : list (objhdr * colhdr * lis
     mver = ver_after cv (-1) (concat (map cgev_objs evs)) /\
     content = concat clusters /\ list_offset offsets content = clusters.
 Proof.
-  intros cv evs W S Hs. cbv zeta.
+  intros cv evs W Hs. cbv zeta. assert (S : start_ok cv (-1) (concat (map cgev_objs evs))) by (right; reflexivity).
   exists (ver_after cv (-1) (concat (map cgev_objs evs))), (0 :: prefix_sums 0 (map (fun ev => zlen (cgev_objs ev)) evs)),
          (concat (map (fun ev => map cg_of (cgev_objs ev)) evs)).
   split; [apply (cgem_branch_enc cv evs W S Hs)|]. split; [reflexivity|]. split; [reflexivity|].
@@ -467,14 +468,34 @@ Definition cg_referenced_first : list (objhdr * colhdr * list (objhdr * (Z * tob
      {| ch_nbytes := 190; ch_ver := 3; ch_tver := 1; ch_uid := 0; ch_bits := 33554432; ch_name := 0; ch_low := 0 |},
      [ (HNew 120 [84; 82; 101; 99; 67; 103; 101; 109; 67; 108; 117; 115; 116; 101; 114],
         (2, {| to_ver := 1; to_uid := 7; to_bits := 50331664; to_pidf := 9 |}, cg_sample)) ]) ].
-Lemma c01_cgem_first_referenced_refuted_pf :
-  Forall (cgev_ok 0) cg_referenced_first /\
-  cgem_branch (concat (map cgem_event_enc cg_referenced_first)) (0 :: prefix_sums 0 (map zlen (map cgem_event_enc cg_referenced_first))) = None.
+Definition cg_sample1 : cgem := {| cg_ints := [-1; 2; -3; 4; -5]; cg_d1 := [6; 7]; cg_posy := None; cg_d2 := [9; 10];
+                                   cg_flag := [11; -12]; cg_strip := [13; 14; 15; 16] |}.
+Definition cg_referenced_first_v1 : list (objhdr * colhdr * list (objhdr * (Z * tobject * cgem))) :=
+  [ (HRef 200 2147483649,
+     {| ch_nbytes := 190; ch_ver := 3; ch_tver := 1; ch_uid := 0; ch_bits := 33554432; ch_name := 0; ch_low := 0 |}, []);
+    (HRef 200 2147483649,
+     {| ch_nbytes := 190; ch_ver := 3; ch_tver := 1; ch_uid := 0; ch_bits := 33554432; ch_name := 0; ch_low := 0 |},
+     [ (HRef 120 2147483653, (1, {| to_ver := 1; to_uid := 7; to_bits := 50331664; to_pidf := 9 |}, cg_sample1));
+       (HRef 120 2147483653, (1, {| to_ver := 1; to_uid := 8; to_bits := 50331648; to_pidf := 0 |}, cg_sample1)) ]) ].
+Lemma cg_referenced_first_ok : Forall (cgev_ok 0) cg_referenced_first /\ Forall (cgev_ok 1) cg_referenced_first_v1.
 Proof.
-  split; [|vm_compute; reflexivity].
-  repeat constructor; cbn; unfold nbytes_wf, u16_wf, u32_wf, kByteCountMask, kNewClassTag, prim_wf; cbn; try lia;
+  split; repeat constructor; cbn; unfold nbytes_wf, u16_wf, u32_wf, kByteCountMask, kNewClassTag, prim_wf; cbn; try lia;
     repeat constructor; cbn; try lia.
 Qed.
+(* the stream on which the reader used to throw (first object of the basket referenced, fNBytes 98), and its version-1
+   sibling (empty first event, then fNBytes 90 followed by an unreferenced 88) *)
+Lemma c01_ex_cgem_referenced_first_pf :
+  (Forall (cgev_ok 0) cg_referenced_first /\ Forall (cgev_ok 1) cg_referenced_first_v1) /\
+  cgem_branch (concat (map cgem_event_enc cg_referenced_first)) (0 :: prefix_sums 0 (map zlen (map cgem_event_enc cg_referenced_first)))
+    = Some ((0, [0; 1]), [cg_sample]) /\
+  cgem_branch (concat (map cgem_event_enc cg_referenced_first_v1)) (0 :: prefix_sums 0 (map zlen (map cgem_event_enc cg_referenced_first_v1)))
+    = Some ((1, [0; 0; 2]), [cg_sample1; cg_sample1]).
+Proof. split; [exact cg_referenced_first_ok|]. split; vm_compute; reflexivity. Qed.
+
+(* one stored cluster read with the version flag still unknown: ANY fBits (kIsReferenced set or not) *)
+Lemma c01_cgem_first_object_any_bits_pf : forall (cv : Z) (x : objhdr * (Z * tobject * cgem)) (rest : bytes),
+  cgobj_ok cv x -> cgem_obj_read (-1) (cgem_obj_enc x ++ rest) = Some ((cv, cg_of x), rest).
+Proof. intros cv x rest W. apply (cgem_obj_read_enc cv); [exact W|right; reflexivity]. Qed.
 Lemma c01_digi_flatten_lossless_pf : forall fields : list (bytes * pv),
   fields <> [] -> In RAW (map fst fields) -> NoDup (map fst (splice fields)) ->
   flatten_digi (PRec fields) = Some (PRec (splice fields)) /\
